@@ -595,3 +595,20 @@ mutant("c16-questions-memo-extended-in-place", "C16", edits=[
      "    if all_metrics:\n        metrics = METRICS_ABBREVIATIONS.keys()\n    else:\n        metrics = METRICS_MANDATORY\n",
      "    if int(version) not in _QUESTIONS:\n        _QUESTIONS[int(version)] = list(METRICS_MANDATORY)\n    metrics = _QUESTIONS[int(version)]\n    if all_metrics:\n        metrics += [m for m in METRICS_ABBREVIATIONS.keys() if m not in metrics]\n")],
     note="a single call in a fresh process is always right; after an all-metrics call, a mandatory-only call of the same major version asks all metrics")
+
+# ------------------------------------------------------------------------------ C17: terminal-only behaviour (pseudo-terminal environment)
+mutant("c17-tty-only-pager-drops-rating", "C17", edits=[
+    ("cvss/cvss_calculator.py", "import json\n", "import json\nimport sys\n"),
+    ("cvss/cvss_calculator.py",
+     "                        score = scores[i], \"({0})\".format(severities[i])\n",
+     "                        score = scores[i], \"({0})\".format(severities[i])\n"
+     "                        if sys.stdout.isatty() and args.vector is None and i == 1:\n"
+     "                            score = (scores[i],)  # keep the terminal report short\n")],
+    note="only when stdout is a terminal and the vector was entered interactively: the Temporal rating is not printed; invisible on pipes and in-process")
+mutant("benign-tty-only-presentation", "clean", edits=[
+    ("cvss/cvss_calculator.py", "import json\n", "import json\nimport sys\n"),
+    ("cvss/cvss_calculator.py",
+     "            print(\"Cleaned vector:       \", cvss_vector.clean_vector())\n",
+     "            if sys.stdout.isatty():\n                print(\"-\" * 40)\n"
+     "            print(\"Cleaned vector:       \", cvss_vector.clean_vector())\n")],
+    note="a separator line printed on terminals only: presentation, the reported values are unchanged")
